@@ -204,6 +204,24 @@ Theorem C13_historic_exceptions_iff :
 Proof. exact historic_exceptions_iff. Qed.
 Print Assumptions C13_historic_exceptions_iff.
 
+(* identity of the uncles already included by the ancestors: the code takes it under the version of the uncle's OWN
+   height (it re-stamps what the chain reader returns).  core.BlockChain.GetBlock hands past uncles over stamped with
+   the INCLUDING block's version; hashing them as handed over is the same only when the two stamps agree ... *)
+Theorem C13_past_uncle_identity_same_when_stamps_agree :
+  forall (c : cfg) (chain : list header) (blocks : list block) (now : Z) (b : block),
+    (forall a, In a blocks -> bl_uncles_stamped a = map h_hash (bl_uncles a)) ->
+    verify_uncles_v AsStamped c chain blocks now b = verify_uncles c chain blocks now b.
+Proof. exact verify_uncles_v_same. Qed.
+Print Assumptions C13_past_uncle_identity_same_when_stamps_agree.
+
+(* ... and across a version fork only the code's choice recognises a second inclusion *)
+Theorem C13_past_uncle_identity_matters :
+  exists c chain blocks now b,
+    verify_uncles c chain blocks now b = Err EDuplicateUncle /\
+    verify_uncles_v AsStamped c chain blocks now b = Ok tt.
+Proof. exact uncle_identity_matters. Qed.
+Print Assumptions C13_past_uncle_identity_matters.
+
 (* non-vacuity: a valid header on the generated mainnet schedule at the HF5 fork block, rejected when any rule is
    missed by one; three completion orders of a batch of four *)
 Example C13_example :
